@@ -57,7 +57,7 @@ def main(ctx):
     ctx.axioms_used.discard("Axioms")
     ctx.obligations = [(n, ok, d.replace("axioms: Axioms,", "axioms: ")) for (n, ok, d) in ctx.obligations]
     bindir = ctx.harness(GROUP, profile="release", bins=["c33"])
-    cases = ctx.gen_exec(bindir, "c33", ctx.n(2400, 12000), inputs=ctx.replay_inputs())
+    cases = ctx.gen_exec(bindir, "c33", ctx.n(2400, 8000), inputs=ctx.replay_inputs())
     ctx.correspond("samplers", GROUP, REQ, cases, show="ModelSamplers.show",
                    agree="ModelSamplers.agree", prop_ok="ModelSamplers.prop_ok",
                    fn_name="Filters.ModelSamplers.{argmax, sample_multi}")
